@@ -24,6 +24,8 @@ SELECTIONS = {
     "tut3dot": ("normal.nongui.tutorial3", "net2 net3"),
     "gui4": ("leaves..tutorial_gui", "net1 net2 net3 net4"),
     # other vm variants: both vms of tutorial3 then need a setup test of the same name
+    # the run's vm restrictions given by variant-set name: textually contained in tutorial_gui's own "only_vm1 = qemu_kvm_centos, qemu_kvm_fedora"
+    "gui2q": ("leaves..tutorial_gui", "net1 net2", {"vm1": "qemu_kvm_centos", "vm2": "qemu_kvm_windows_10", "vm3": "qemu_kvm_ubuntu"}),
     "tut3fed": ("normal..tutorial3", "net1 net2", {"vm1": "Fedora", "vm2": "Win7", "vm3": "Ubuntu"}),
 }
 
